@@ -425,8 +425,9 @@ fn exec(c: &FaultCase, env: &Env) -> Outcome {
             }
             let (mut sym, mut fired_op) = faulted_run(hist, &dir, &keys, c.via_resp);
             let mut fired = shim::inject_disarm();
-            if c.via_resp && matches!(&sym, Some(s) if s.msg.contains("no reply within 10 s")) {
-                // a missed time bound on the wire is not a verdict (one such case in 3.6 million
+            if c.via_resp && matches!(&sym, Some(s) if s.msg.contains("no reply within 10 s") || s.msg.contains("harness: ")) {
+                // a missed time bound on the wire (or a server / connection the harness could not set
+                // up) is not a verdict (one such case in 3.6 million
                 // runs of a thorough campaign on a loaded machine, never reproduced): the same
                 // faulted run is repeated with direct calls, where an operation that does not
                 // return is caught by the stall watchdog and everything else by the oracle
